@@ -769,6 +769,15 @@ func (f *Frame) evalCall(e *CExpr, env *Env) *Val {
 		a := arg(0)
 		comp := e.Args[1].Name
 		g, ok := a.Ghost[comp]
+		if !ok && f.writerMonitor() != nil && (comp == "q" || comp == "k") {
+			key := monQKey
+			if comp == "k" {
+				key = monKKey
+			}
+			t := env.State.Get(key, IntS)
+			f.E.noteVars(t)
+			return intVal(t)
+		}
 		if !ok {
 			f.E.fail("value %s has no ghost component %s", e.Args[0], comp)
 		}
